@@ -49,6 +49,31 @@ claimed.update({
    note="Kernel ground truth is fdinfo of the real descriptor; canonical-state abstraction argued in seq.go (wd renaming, cookie ring dropped at quiescence).",
    technique="explicit-state model checking with kernel-side ground truth compared in every state; fixed point for the cycle clause"),
 })
+EV = "E2 BFS over histories x batchings + exhaustive batch enumeration (harness/checks_events.go, seq.go, ideal.go)"
+claimed.update({
+ "C01": dict(engine=EV, design="5 (C01), 2 (E2), 4",
+   text="(a) BFS over filesystem/API histories on a watched directory, a watched file and unwatched neighbours (create, write, truncate, chmod, unlink, mkdir, rmdir, rename within/into/out of/onto, hard link, symlink, unlink-while-open, rm -r, Add/Remove), then from every shallow state every burst of up to three operations read as one batch; API calls landing while the reader is parked mid-batch; (b) every ordered batch of one or two creations (three for the plain spelling) over names of byte length 1,15,16,17,...,254,255 plus space, dot, dash and 2/3/4-byte UTF-8; (c) bursts that fill the 64 KiB read buffer exactly, by one record less and one more, nameless, named and mixed; (d) an injected IN_Q_OVERFLOW at every position of a batch (thorough: one real overflow of 17000 notifications). The raw bytes of every kernel read are captured at the read seam and parsed independently; every must-deliver record must appear on Events exactly once with the documented Op and name.",
+   note="Ground truth is the kernel's own record stream as handed to the library's read (captured without passing through library code) plus fdinfo for what is subscribed (C12/C15). Records raced by a Remove/re-Add that returned later are 'may'.",
+   technique="explicit-state model checking (BFS over histories x batchings) plus exhaustive enumeration of input-shape batches on the real code against a reference translation of the raw kernel stream"),
+ "C02": dict(engine=EV, design="5 (C02), 4",
+   text="Same executions as C01; every received event must be backed by a kernel record of a watch that was listed when the record was caused (or a direct child), have a non-empty Op, not stem from IN_IGNORED/IN_UNMOUNT/IN_Q_OVERFLOW, not stem from an unwatched sub-directory, and not stem from a change made after Remove of its watch returned (stream positions are compared with the position at which Remove returned).",
+   note="As C01.", technique="explicit-state model checking plus exhaustive batch enumeration; must-not side of the reference model"),
+ "C03": dict(engine=EV, design="5 (C03), 4",
+   text="Same executions as C01 (all batchings up to bursts of three, capacities 0/1/2 with the consumer attached late); the received sequence must equal the translated kernel sequence in order - optional records may be dropped but never moved; Rename(old) immediately followed by Create(new) for moves between watched names.",
+   note="Consumer pace beyond 'eager' and 'late' is schedule, covered by the E1 scenarios of C05-C07.", technique="explicit-state model checking with an order-preserving alignment oracle"),
+ "C08": dict(engine=EV, design="5 (C08)",
+   text="The complete product {10 spellings of the watched directory: relative, ./, //, x/../, trailing slash, /., absolute, relative symlink, absolute symlink, ./link/} x {27 entry names covering every padded length 16..256 and multi-byte UTF-8} x {single record, every ordered pair} run with the scratch directory as cwd; self events of a watched file under 7 spellings incl. through a symlink; first-added-wins histories (link/target, hard link/file, several spellings, retargeted links). Expected name = filepath.Clean(argument) [+ '/' + entry], compared byte for byte.",
+   note="Entry names come from the raw kernel records; the expected spelling from the Add argument only.", technique="exhaustive enumeration of a finite spelling x name-shape x batch-position product on the real code"),
+ "C10": dict(engine=EV + " + E1", design="5 (C10)",
+   text="E1: every schedule up to preemption bound 2 (1 for the two-caller program) of rename-then-delete, rename-then-rmdir, delete-then-recreate and burst histories with consumers on Errors (the reader's position relative to each step is what 'speed' means), judged up to the first Close call; the same for an injected overflow with nobody / only Events / both being consumed (control calls must still return). E2: the end-of-watch BFS with all two-operation bursts to its fixed point; the named histories in every batching; an injected IN_Q_OVERFLOW at every position of a batch followed by more records and Add/Remove/WatchList. Oracle: values on Errors = one ErrEventOverflow (errors.Is) per kernel overflow marker + injected read faults, nothing else.",
+   note="A Close racing the IN_MOVE_SELF clean-up can still put EBADF on Errors; C10 quantifies over filesystem histories and reader speeds, not over Close, so this is noted in DESIGN.md and not judged here.", technique="stateless model checking (schedule enumeration) plus explicit-state BFS on the real code"),
+ "C11": dict(engine=EV, design="5 (C11)",
+   text="BFS over moves within/between/into/out of two watched directories with creates and links (+ bursts of three); chains of 9..25 moves (ring wrap), singly and in bursts; 0..12 unmatched move-outs before a move-in, create, link or matched move; an API call landing between the two halves of a move (reader parked on the Rename); all 6 and 90 interleavings of the MOVED_FROM/MOVED_TO halves of 2 and 3 simultaneous moves, injected as crafted records for really registered wds, whole and split over two reads. Oracle: a Create from a MOVED_TO carries exactly the name of the delivered Rename with the same cookie; every other Create carries none.",
+   note="Interleaved halves are injected because the interleaving happens inside the kernel.", technique="explicit-state BFS plus exhaustive enumeration of injected record interleavings"),
+ "C14": dict(engine=EV, design="5 (C14)",
+   text="Differential: every history of one or two operations over ten operations (thorough: three), as a burst and step by step, with Events capacity default,0,1,2,4,...,65536; single bursts additionally with the consumer attached only afterwards (absorb clause: a buffer that can hold the history leaves nothing in the kernel queue). Runs with equal read points must deliver byte-identical sequences; every run must match the reference model; cap(Events) must equal the request. Lagging consumers on buffered Watchers (every step read, nothing received until the end) for all triples of six operations x capacities 1,2,8,64. Other Watchers created, used and closed at every position of three histories, incl. API calls on a closed Watcher whose descriptor number has been recycled (synchronous close).",
+   note="Other Watchers live in the same process.", technique="exhaustive differential enumeration over configurations on the real code"),
+})
 NA_REASON = "check not built yet (work in progress; DESIGN.md section 5 gives the planned decision procedure)"
 
 def main():
@@ -69,6 +94,8 @@ def main():
          "kind_free_text": "extraction of pure functions from the working tree + exhaustive enumeration of their finite input domains against independent references"},
         {"name": "E2", "path": "harness/bfs.go harness/seq.go harness/ideal.go harness/fam_seq.go", "serves_properties": ["C04", "C09", "C12"],
          "kind_free_text": "explicit-state BFS over operation sequences: successors by replay on fresh kernel objects, canonical-state hashing, reference model fed by seam syscalls and raw kernel reads"},
+        {"name": "E2-events", "path": "harness/checks_events.go harness/seq.go harness/ideal.go", "serves_properties": ["C01", "C02", "C03", "C08", "C10", "C11", "C14"],
+         "kind_free_text": "BFS over histories x batchings, exhaustive name-shape / buffer-boundary / injected-record enumeration, differential runs over configurations; reference model over the raw kernel stream"},
         {"name": "E1", "path": "engine/vinst engine/vsched engine/vsys harness", "serves_properties": sorted(k for k, v in claimed.items() if v["engine"] == E1),
          "kind_free_text": "source-to-source instrumentation of the working tree + cooperative scheduler + preemption-bounded DFS (iterative context bounding), 16 worker processes"},
       ],
